@@ -1,26 +1,25 @@
 import PP.Model.Types
-import PP.Core.F64
+import PP.Core.Arb
 /-!
 # Hand model of `<Piecewise<T> as Arbitrary>::arbitrary` (piecewise.rs:194-212)
 
-…and of the parts of the `arbitrary` crate (1.4.2) it goes through:
-`Unstructured::fill_buffer` (unstructured.rs:577: copies what is left, zero-pads, never fails),
-integers = little-endian `fill_buffer` (foreign/core/num.rs:12-31), `bool` = low bit of a `u8`,
-`f64` = `from_bits` of a `u64`, `Vec<A>` = `arbitrary_iter().collect()` where the iterator continues while
-`bool::arbitrary().unwrap_or(false)` (unstructured.rs:774-784), `[T; N]` = N elements in order, derived
-tuple structs = their fields in order.  `slice::sort_by` is a stable sort: `List.mergeSort`.
-Tied to the real crate by campaign `arbitrary`.  Core Lean only; numbers are `F64`.
+The model of the external `arbitrary` crate (1.4.2) — `Unstructured::fill_buffer`, little-endian integers,
+`bool`, `f64`, `Vec<A>`, `[A; N]`, the error type — and of `f64::is_normal` / `slice::sort_by` is
+`PP/Core/Arb.lean`; the impl itself is translated (`PP/Model/Piecewise/Arbitrary.lean`, over the fallible
+three-valued `Arb.Res`).  This file keeps the *total* reading that property C19 is stated about: none of
+the decoders used here can fail (exhausted input reads as zeros / `false`), so they are plain functions
+`Bytes → value × Bytes` on top of `Arb.uintLE`; the only failure of the impl is `Err(IncorrectFormat)` =
+`none`, and `sort_by` on non-NaN keys is `List.mergeSort`.  `PP/Props/Tie3.lean` proves that the generated
+code computes exactly this (`Ok pw` ↔ `some pw`, `Err` ↔ `none`, never a panic), for the piece types
+`Poly0..Poly8` and `PolyN`.  Tied to the real crate by campaign `arbitrary`.  Core Lean only; numbers are `F64`.
 -/
 namespace Hand.Arb
 
-/-- the unread data -/
-abbrev Bytes := List Nat
+/-- the unread data (`Arb.Unstructured`) -/
+abbrev Bytes := Arb.Unstructured
 
-/-- `fill_buffer` of n bytes read as a little-endian integer: missing bytes are zero -/
-def takeLE : Nat → Bytes → Nat × Bytes
-  | 0, bs => (0, bs)
-  | _ + 1, [] => (0, [])
-  | n + 1, b :: bs => let r := takeLE n bs; (b % 256 + 256 * r.1, r.2)
+/-- `fill_buffer` of n bytes read as a little-endian integer: missing bytes are zero (`Arb.uintLE`) -/
+abbrev takeLE : Nat → Bytes → Nat × Bytes := Arb.uintLE
 
 def arbBool (bs : Bytes) : Bool × Bytes := let r := takeLE 1 bs; (r.1 % 2 == 1, r.2)
 def arbF64 (bs : Bytes) : F64 × Bytes := let r := takeLE 8 bs; (F64.ofBits r.1, r.2)
@@ -44,10 +43,8 @@ def arbFloats : Nat → Bytes → List F64 × Bytes
   | 0, bs => ([], bs)
   | n + 1, bs => let x := arbF64 bs; let r := arbFloats n x.2; (x.1 :: r.1, r.2)
 
-/-- `f64::is_normal`: neither zero, subnormal, infinite nor NaN -/
-def isNormal : F64 → Bool
-  | .fin _ m _ => decide (2 ^ 52 ≤ m)
-  | _ => false
+/-- `f64::is_normal`: neither zero, subnormal, infinite nor NaN (`F64.isNormal`, `PP/Core/Arb.lean`) -/
+abbrev isNormal : F64 → Bool := F64.isNormal
 
 /-- comparison used by `sort_by(|x, y| x.partial_cmp(y).unwrap())` on non-NaN values -/
 def keyLe (a b : F64) : Bool := decide (F64.key a ≤ F64.key b)
